@@ -3,13 +3,14 @@ CONSTANTS
   Binary <- AllBinary
   Prefix = {"u-", "u+"}
   Postfix = {"%"}
-  Calls = {"SUM(", "IF("}
+  Calls <- AllCalls
   Parens = TRUE
   MaxLen = 9
   MinExport = 6
   Lit <- MCLit
   LitDev <- MCLitDev
   Refs <- MCRefs
+  RefAt <- MCRefAt
   Envs <- MCEnvs
 SPECIFICATION Spec
 INVARIANT TypeOK
